@@ -762,9 +762,82 @@ def dt_finfo_rule(ctx):
     return res
 
 
+def dt_numpy_rule(ctx):
+    """DT-NUMPY.  numpy computes in float64; `torch.as_tensor(a)` / `torch.from_numpy(a)` / `torch.tensor(a)` of a
+    numpy array keep that dtype.  Where such a tensor *becomes* model state without a conversion -- `p.data = t`,
+    `nn.Parameter(t)`, `register_buffer(name, t)` / `register_parameter`, `self.x = t` read by evaluation -- a
+    nominally float32 model holds float64 state: float32 inputs come back as float64 (results do not carry the
+    dtype of the inputs) and the next float32 layer raises a dtype error that the .double() twin does not.
+    (`p.data.copy_(t)`, `t.to(p.dtype)`, `dtype=` convert and are fine.)"""
+    import ast
+
+    from .shared_rules import _functions, _own_nodes
+
+    p = ctx.p
+    res = RuleResult("DT-NUMPY", "no tensor made from a numpy array (float64) becomes a parameter / buffer / stored attribute without a dtype conversion")
+    ARRAY_FNS = {"broadcast_to", "array", "asarray", "arange", "linspace", "zeros", "ones", "full", "stack", "concatenate", "tile", "repeat", "cumsum", "outer", "eye", "diag", "log", "exp", "sqrt", "abs", "tanh", "clip", "where", "maximum", "minimum", "mod", "insert", "float64"}
+    n_fn = n_site = 0
+    for mod, qual, fn, cls in _functions(p):
+        n_fn += 1
+        nodes = _own_nodes(fn)
+
+        def arrayish(e, depth=0):
+            """may `e` be a numpy array / numpy float64 scalar computed by numpy?"""
+            if depth > 4:
+                return False
+            if isinstance(e, ast.Call) and isinstance(e.func, ast.Attribute) and isinstance(e.func.value, ast.Name) and e.func.value.id in ("np", "numpy") and e.func.attr in ARRAY_FNS:
+                # np.log(2.0) of constants is a Python-float-like scalar only when every argument is a constant
+                return not all(isinstance(a, ast.Constant) or (isinstance(a, ast.BinOp) and all(isinstance(x, (ast.Constant, ast.BinOp, ast.operator, ast.Attribute, ast.Name, ast.Load)) and not (isinstance(x, ast.Name) and x.id not in ("np", "math")) for x in ast.walk(a))) for a in e.args)
+            if isinstance(e, ast.Name):
+                defs = [a.value for a in nodes if isinstance(a, ast.Assign) and any(isinstance(t, ast.Name) and t.id == e.id for t in a.targets)]
+                return any(arrayish(d, depth + 1) for d in defs)
+            if isinstance(e, (ast.BinOp,)):
+                return arrayish(e.left, depth + 1) or arrayish(e.right, depth + 1)
+            if isinstance(e, ast.UnaryOp):
+                return arrayish(e.operand, depth + 1)
+            if isinstance(e, ast.Subscript):
+                return arrayish(e.value, depth + 1)
+            return False
+
+        def numpy_tensor(e):
+            """torch.as_tensor / from_numpy / tensor of a numpy array, with no dtype= and no conversion applied"""
+            if isinstance(e, ast.Call) and isinstance(e.func, ast.Attribute) and isinstance(e.func.value, ast.Name) and e.func.value.id == "torch" and e.func.attr in ("as_tensor", "from_numpy", "tensor") and e.args and not any(k.arg == "dtype" for k in e.keywords):
+                return arrayish(e.args[0])
+            if isinstance(e, ast.Name):
+                defs = [a.value for a in nodes if isinstance(a, ast.Assign) and any(isinstance(t, ast.Name) and t.id == e.id for t in a.targets)]
+                return bool(defs) and all(numpy_tensor(d) for d in defs)
+            if isinstance(e, ast.UnaryOp):
+                return numpy_tensor(e.operand)
+            return False
+
+        for n in nodes:
+            val, how = None, None
+            if isinstance(n, ast.Assign) and len(n.targets) == 1:
+                t = n.targets[0]
+                if isinstance(t, ast.Attribute) and t.attr == "data":
+                    val, how = n.value, "`%s = ..`" % norm_text(t)
+                elif isinstance(t, ast.Attribute) and isinstance(t.value, ast.Name) and t.value.id == "self":
+                    val, how = n.value, "`self.%s = ..`" % t.attr
+                    if isinstance(val, ast.Call) and norm_text(val.func).split(".")[-1] in ("Parameter", "Buffer") and val.args:
+                        val = val.args[0]
+            elif isinstance(n, ast.Call) and isinstance(n.func, ast.Attribute) and n.func.attr in ("register_buffer", "register_parameter") and len(n.args) >= 2:
+                val, how = n.args[1], "`%s(..)`" % n.func.attr
+                if isinstance(val, ast.Call) and norm_text(val.func).split(".")[-1] == "Parameter" and val.args:
+                    val = val.args[0]
+            if val is None:
+                continue
+            n_site += 1
+            if numpy_tensor(val):
+                res.fail(Finding("DT-NUMPY", mod, qual, n, "%s stores a tensor made from a numpy array without converting its dtype (`%s`): numpy computes in float64, so the module holds float64 state whatever dtype it is otherwise in -- float32 inputs then give float64 outputs / log-dets, and a following float32 layer raises a dtype error the .double() twin does not; convert with `.to(<the parameter's dtype>)` / `dtype=torch.get_default_dtype()` or write with `.data.copy_(..)`" % (how, norm_text(val)[:60]), construct="numpy-made tensor stored by %s" % qual))
+    if n_fn < getattr(ctx, "numpy_floor", 300):
+        raise AnalysisIncomplete("DT-NUMPY: only %d functions examined" % n_fn)
+    res.ok("%d functions examined, %d stores of model state" % (n_fn, n_site), nontrivial=False)
+    return res
+
+
 register(
     "C19",
-    [c19_rules, logspace_rule, moment_rule, saturate_rule, dt_memo_rule, dt_finfo_rule],
+    [c19_rules, logspace_rule, moment_rule, saturate_rule, dt_memo_rule, dt_finfo_rule, dt_numpy_rule],
     "NUM-SATURATE: every log / log1p call is examined on the symbolic expansion of its function (helpers inlined): an argument that "
     "is a polynomial in the output of one sigmoid / tanh / softmax call and vanishes at a saturation limit of that call (log(s), "
     "log1p(-s), log(1 - y**2)) is reported unless the squashed value is confined to a two-sided bounded region by a mask -- those "
